@@ -164,7 +164,20 @@ func fragPayload(name string, p Params, kind string, size int, fill uint16, st *
 			if kind == "single" {
 				h = append(h, 0x82, byte(size>>8), byte(size))
 			} else {
-				h = append(h, 0x84, 0x7f, 0xff, 0xff, 0xff) // declares ~2 GiB
+				// what the first packet declares for the whole unit, by variant: ~2 GiB, 2^63 and 2^64-1 (which do not
+				// fit a signed size), 2^63-1 (which overflows once the key and length bytes are added), 1 MiB
+				switch fill % 5 {
+				case 0:
+					h = append(h, 0x84, 0x7f, 0xff, 0xff, 0xff)
+				case 1:
+					h = append(h, 0x88, 0x80, 0, 0, 0, 0, 0, 0, 0)
+				case 2:
+					h = append(h, 0x88, 0xff, 0xff, 0xff, 0xff, 0xff, 0xff, 0xff, 0xff)
+				case 3:
+					h = append(h, 0x88, 0x7f, 0xff, 0xff, 0xff, 0xff, 0xff, 0xff, 0xff)
+				default:
+					h = append(h, 0x83, 0x10, 0, 0)
+				}
 			}
 			return append(h, body...)
 		}
@@ -433,7 +446,7 @@ func genGrowthCase(t *rapid.T, f *Format, packets int, kind string) HostileCase 
 		fr := genFrame(t, f, c, 0, 1)
 		hc.Ops = append(hc.Ops, HOp{Kind: "valid", Frame: &fr})
 	}
-	hc.Ops = append(hc.Ops, HOp{Kind: "start", Count: 1, Size: size, Fill: 3, NewTS: true})
+	hc.Ops = append(hc.Ops, HOp{Kind: "start", Count: 1, Size: size, Fill: uint16(rapid.IntRange(0, 9).Draw(t, "start_variant")), NewTS: true})
 	op := HOp{Kind: kind, Count: packets, Size: size, Fill: 9}
 	if kind == "raw" {
 		op.Raw = rapid.SliceOfN(rapid.Byte(), 1, 8).Draw(t, "raw")
